@@ -8,7 +8,15 @@ set_option linter.unusedSimpArgs false
 namespace Clikit.Tokenizer
 open Clikit.Gen.C08 (isSpace optionsEnd)
 
-deriving instance DecidableEq for Except
+/-- decidable equality of results (for the concrete `example`s); named and kept in this
+namespace so that it cannot collide with an instance derived elsewhere -/
+instance decEqExcept {ε α : Type} [DecidableEq ε] [DecidableEq α] : DecidableEq (Except ε α)
+  | .ok a, .ok b =>
+    if h : a = b then isTrue (by rw [h]) else isFalse (fun h' => h (Except.ok.inj h'))
+  | .error a, .error b =>
+    if h : a = b then isTrue (by rw [h]) else isFalse (fun h' => h (Except.error.inj h'))
+  | .ok _, .error _ => isFalse (fun h => by cases h)
+  | .error _, .ok _ => isFalse (fun h => by cases h)
 
 /-! ### `_parse_escape_sequence` -/
 
@@ -597,6 +605,204 @@ theorem Cursor.isValid_iff {c : Cursor} (h : c.WF) : c.isValid = !c.rest.isEmpty
       rw [List.drop_eq_nil_of_le (by omega)] at hd
       cases hd
     simp [List.getElem?_eq_getElem this]
+
+/-- `_parse_escape_sequence()` on the object state is `esc` on the text after the backslash -/
+theorem Cursor.escape_eq {c : Cursor} (h : c.WF) :
+    c.escape.1 = (esc (c.rest.drop 1)).1 ∧ c.escape.2.rest = (esc (c.rest.drop 1)).2 ∧
+    c.escape.2.WF := by
+  have hn := (Cursor.current_eq h).2
+  have hr : c.escape.2.rest = (c.rest.drop 1).drop 1 := by
+    simp only [Cursor.escape]
+    rw [Cursor.rest_next (Cursor.next_wf h), Cursor.rest_next h]
+  refine ⟨?_, ?_, Cursor.next_wf (Cursor.next_wf h)⟩
+  · simp only [Cursor.escape, hn]
+    cases hd : List.drop 1 c.rest with
+    | nil => simp [esc]
+    | cons d r => simp only [List.head?_cons, esc]; split <;> rfl
+  · rw [hr]
+    cases hd : List.drop 1 c.rest with
+    | nil => simp [esc]
+    | cons d r => simp only [esc]; split <;> simp
+
+/-! ### the object-level scanner and the remaining-text scanner agree -/
+
+/-- result of an object-level function seen on the remaining text -/
+def onRest : Except Err (Str × Cursor) → Except Err (Str × Str)
+  | .error e => .error e
+  | .ok (t, c) => .ok (t, c.rest)
+
+def okWF : Except Err (Str × Cursor) → Prop
+  | .error _ => True
+  | .ok (_, c) => c.WF
+
+theorem rest_cases {c : Cursor} (h : c.WF) :
+    (c.current = none ∧ c.rest = []) ∨
+    (∃ x r, c.current = some x ∧ c.rest = x :: r ∧ c.next.rest = r) := by
+  have h1 := (Cursor.current_eq h).1
+  have h2 := Cursor.rest_next h
+  cases hr : c.rest with
+  | nil => left; rw [hr] at h1; exact ⟨by simpa using h1, rfl⟩
+  | cons x r => right; rw [hr] at h1 h2; exact ⟨x, r, by simpa using h1, rfl, by simpa using h2⟩
+
+theorem pqC_sim : ∀ (n : Nat) (d : Char) (c : Cursor), c.WF →
+    onRest (pqC n d c) = pq n d c.rest ∧ okWF (pqC n d c) := by
+  intro n
+  induction n with
+  | zero => intro d c _; simp [pqC, pq, onRest, okWF]
+  | succ n ih =>
+    intro d c h
+    rcases rest_cases h with ⟨hc, hr⟩ | ⟨x, r, hc, hr, hn⟩
+    · simp [pqC, hc, hr, pq, onRest, okWF, h]
+    · have hnw := Cursor.next_wf h
+      have ⟨he1, he2, he3⟩ := Cursor.escape_eq h
+      rw [hr] at he1 he2
+      simp only [List.drop_succ_cons, List.drop_zero] at he1 he2
+      simp only [pqC, hc, hr, pq]
+      by_cases h1 : (x == d) = true
+      · simp only [h1, if_true, onRest, okWF, hn]; exact ⟨trivial, hnw⟩
+      · simp only [h1, Bool.false_eq_true, if_false]
+        by_cases h2 : (x == '\\') = true
+        · simp only [h2, if_true]
+          have ⟨i1, i2⟩ := ih d c.escape.2 he3
+          rw [he2] at i1
+          cases hp : pqC n d c.escape.2 with
+          | error e => rw [hp] at i1; simp only [onRest] at i1; rw [← i1]; simp [onRest, okWF]
+          | ok y =>
+            rw [hp] at i1 i2; simp only [onRest] at i1; rw [← i1]
+            simp only [onRest, okWF, he1] at i2 ⊢; exact ⟨trivial, i2⟩
+        · simp only [h2, Bool.false_eq_true, if_false]
+          by_cases h3 : (x == '"') = true
+          · simp only [h3, if_true]
+            have ⟨i1, i2⟩ := ih '"' c.next hnw
+            rw [hn] at i1
+            cases hp : pqC n '"' c.next with
+            | error e => rw [hp] at i1; simp only [onRest] at i1; rw [← i1]; simp [onRest, okWF]
+            | ok y =>
+              obtain ⟨inner, c1⟩ := y
+              rw [hp] at i1 i2; simp only [onRest] at i1; rw [← i1]
+              simp only [okWF] at i2
+              have ⟨j1, j2⟩ := ih d c1 i2
+              simp only []
+              cases hp2 : pqC n d c1 with
+              | error e => rw [hp2] at j1; simp only [onRest] at j1; rw [← j1]; simp [onRest, okWF]
+              | ok z =>
+                rw [hp2] at j1 j2; simp only [onRest] at j1; rw [← j1]
+                simp only [onRest, okWF] at j2 ⊢; exact ⟨trivial, j2⟩
+          · simp only [h3, Bool.false_eq_true, if_false]
+            by_cases h4 : (x == '\'') = true
+            · simp only [h4, if_true]
+              have ⟨i1, i2⟩ := ih '\'' c.next hnw
+              rw [hn] at i1
+              cases hp : pqC n '\'' c.next with
+              | error e => rw [hp] at i1; simp only [onRest] at i1; rw [← i1]; simp [onRest, okWF]
+              | ok y =>
+                obtain ⟨inner, c1⟩ := y
+                rw [hp] at i1 i2; simp only [onRest] at i1; rw [← i1]
+                simp only [okWF] at i2
+                have ⟨j1, j2⟩ := ih d c1 i2
+                simp only []
+                cases hp2 : pqC n d c1 with
+                | error e => rw [hp2] at j1; simp only [onRest] at j1; rw [← j1]; simp [onRest, okWF]
+                | ok z =>
+                  rw [hp2] at j1 j2; simp only [onRest] at j1; rw [← j1]
+                  simp only [onRest, okWF] at j2 ⊢; exact ⟨trivial, j2⟩
+            · simp only [h4, Bool.false_eq_true, if_false]
+              have ⟨i1, i2⟩ := ih d c.next hnw
+              rw [hn] at i1
+              cases hp : pqC n d c.next with
+              | error e => rw [hp] at i1; simp only [onRest] at i1; rw [← i1]; simp [onRest, okWF]
+              | ok y =>
+                rw [hp] at i1 i2; simp only [onRest] at i1; rw [← i1]
+                simp only [onRest, okWF] at i2 ⊢; exact ⟨trivial, i2⟩
+
+theorem ptokC_sim : ∀ (n : Nat) (c : Cursor), c.WF →
+    onRest (ptokC n c) = ptok n c.rest ∧ okWF (ptokC n c) := by
+  intro n
+  induction n with
+  | zero => intro c _; simp [ptokC, ptok, onRest, okWF]
+  | succ n ih =>
+    intro c h
+    rcases rest_cases h with ⟨hc, hr⟩ | ⟨x, r, hc, hr, hn⟩
+    · simp [ptokC, hc, hr, ptok, onRest, okWF, h]
+    · have hnw := Cursor.next_wf h
+      have ⟨he1, he2, he3⟩ := Cursor.escape_eq h
+      rw [hr] at he1 he2
+      simp only [List.drop_succ_cons, List.drop_zero] at he1 he2
+      simp only [ptokC, hc, hr, ptok]
+      by_cases h1 : isSpace x = true
+      · simp only [h1, if_true, onRest, okWF, hn]; exact ⟨trivial, hnw⟩
+      · simp only [h1, Bool.false_eq_true, if_false]
+        by_cases h2 : (x == '\\') = true
+        · simp only [h2, if_true]
+          have ⟨i1, i2⟩ := ih c.escape.2 he3
+          rw [he2] at i1
+          cases hp : ptokC n c.escape.2 with
+          | error e => rw [hp] at i1; simp only [onRest] at i1; rw [← i1]; simp [onRest, okWF]
+          | ok y =>
+            rw [hp] at i1 i2; simp only [onRest] at i1; rw [← i1]
+            simp only [onRest, okWF, he1] at i2 ⊢; exact ⟨trivial, i2⟩
+        · simp only [h2, Bool.false_eq_true, if_false]
+          by_cases h3 : isQ x = true
+          · simp only [h3, if_true]
+            have ⟨i1, i2⟩ := pqC_sim n x c.next hnw
+            rw [hn] at i1
+            cases hp : pqC n x c.next with
+            | error e => rw [hp] at i1; simp only [onRest] at i1; rw [← i1]; simp [onRest, okWF]
+            | ok y =>
+              obtain ⟨q, c1⟩ := y
+              rw [hp] at i1 i2; simp only [onRest] at i1; rw [← i1]
+              simp only [okWF] at i2
+              have ⟨j1, j2⟩ := ih c1 i2
+              simp only []
+              cases hp2 : ptokC n c1 with
+              | error e => rw [hp2] at j1; simp only [onRest] at j1; rw [← j1]; simp [onRest, okWF]
+              | ok z =>
+                rw [hp2] at j1 j2; simp only [onRest] at j1; rw [← j1]
+                simp only [onRest, okWF] at j2 ⊢; exact ⟨trivial, j2⟩
+          · simp only [h3, Bool.false_eq_true, if_false]
+            have ⟨i1, i2⟩ := ih c.next hnw
+            rw [hn] at i1
+            cases hp : ptokC n c.next with
+            | error e => rw [hp] at i1; simp only [onRest] at i1; rw [← i1]; simp [onRest, okWF]
+            | ok y =>
+              rw [hp] at i1 i2; simp only [onRest] at i1; rw [← i1]
+              simp only [onRest, okWF] at i2 ⊢; exact ⟨trivial, i2⟩
+
+theorem toksC_sim : ∀ (n : Nat) (c : Cursor), c.WF → toksC n c = toks n c.rest := by
+  intro n
+  induction n with
+  | zero => intro c _; simp [toksC, toks]
+  | succ n ih =>
+    intro c h
+    rcases rest_cases h with ⟨hc, hr⟩ | ⟨x, r, hc, hr, hn⟩
+    · simp [toksC, hc, hr, toks]
+    · have hnw := Cursor.next_wf h
+      have ⟨i1, i2⟩ := ptokC_sim (n + 1) c h
+      rw [hr] at i1
+      simp only [toksC, hc, hr, toks]
+      by_cases h1 : isSpace x = true
+      · simp only [h1, if_true]; rw [ih c.next hnw, hn]
+      · simp only [h1, Bool.false_eq_true, if_false]
+        cases hp : ptokC (n + 1) c with
+        | error e => rw [hp] at i1; simp only [onRest] at i1; rw [← i1]
+        | ok y =>
+          obtain ⟨t, c1⟩ := y
+          rw [hp] at i1 i2; simp only [onRest] at i1; rw [← i1]
+          simp only [okWF] at i2
+          simp only []
+          rw [ih c1 i2]
+
+theorem tokenizeC_eq (s : Str) : tokenizeC s = tokenize s := by
+  unfold tokenizeC tokenize
+  rw [toksC_sim _ _ (Cursor.init_wf s), Cursor.init_rest]
+
+
+theorem stringArgs_eq (s : Str) : stringArgs s =
+    match tokenize s with
+    | .error e => .error e
+    | .ok ts => .ok { scriptName := none, tokens := ts, optionTokens := optionTokens ts } := by
+  simp only [stringArgs, tokenizeC_eq]
+  rfl
 
 /-! ### `expressible` is exact: an inexpressible token never reads back -/
 
